@@ -21,6 +21,7 @@ git checkout -q -- .
 echo "confirm: build=$build demo_without_patch=$without (want 0) demo_with_patch=$with (want !=0) stable_tests_with_patch=$stable (want 0)"
 if [ $build -ne 0 ] || [ $without -ne 0 ] || [ $with -eq 0 ] || [ $stable -ne 0 ]; then echo "SEED NOT CONFIRMED"; exit 3; fi
 # now against our checks
+if [ -n "$(git -C /repo status --porcelain --untracked-files=no)" ]; then echo "REFUSING: /repo has uncommitted changes (commit contract files first)"; exit 2; fi
 cd /repo && git apply $dst/patch.diff || { echo "patch does not apply to /repo"; exit 2; }
 cd /verif && ./check $id quick > $dst/check.out 2>&1; crc=$?
 git -C /repo checkout -q -- .
